@@ -5,6 +5,7 @@ Line-protocol driver for C13.  Strings are hex (`_` = empty string); `-` = empty
   pp <s1> <s2>                        → r=ok:<sorted k=v>|no|panic cons=<0|1> sound=<0|1|->
   ws <id|up|pr> <values k=v,…> <tokens S:name:attrs|E:name|T:text|C:text|O:text ,…>
       → out=<tokens> simple=<0|1> same=<0|1>        (writeString on one element; id = values are the element's own)
+  pch <hex json layout> <ups> <before>     (local parent chain; spec only) → r=ok spec=<substitute(before, ups)>
   pom <projVersion> <deps> <props> <ups> <before>
       deps = origin:g:a:typ:cls:ver:ws,…  props = origin:name:value,…  ups = name:typ:cls:origin:from:to,…   before = origin:g:a:typ:cls:ver,… (real Read, effective versions)
       → r=ok deps=<sorted> props=<sorted> reqs=<sorted origin:g:a:typ:cls:ver> spec=<sorted> cls=<key|-> scope=<0|1>
@@ -128,7 +129,9 @@ def handlePom (pv ds ps us before : String) : String :=
   match unhexS pv, parseDeps ds, parseProps ps, parseUpds us, parseReqs before with
   | some pv, some ds, some ps, some us, some rb =>
     let pom : Pom := ⟨ds, ps, pv⟩
-    let scope := us.all (fun u => !(hits pom u).isEmpty) && decide ((us.map (·.key)).Nodup)
+    -- in scope of the property: every update is addressed to a requirement present in the file (key, origin AND old version,
+    -- as the real Read reported them), one update per key
+    let scope := us.all (fun u => !(hits pom u).isEmpty) && decide ((us.map (·.key)).Nodup) && us.all (fun u => rb.any (addresses u))
     let cls := match feature pom us with | some k => k | none => "-"
     -- spec: Spec.substitute on the requirements the case carries (the real Read's), wf: Spec.WFcase
     let spec := showReqs (substitute rb us)
@@ -137,6 +140,12 @@ def handlePom (pv ds ps us before : String) : String :=
     | none => s!"r=err {tail}"
     | some pom' => s!"r=ok deps={showDeps pom'.deps} props={showProps pom'.props} reqs={showReqs (requirements pom')} {tail}"
   | _, _, _, _, _ => "bad-op"
+/-- local parent chains: no model of the chain, the verdict is the specification's — `Spec.substitute` on the requirement
+list the case carries (the real `Read` of the child, parents merged) -/
+def handlePch (us before : String) : String :=
+  match parseUpds us, parseReqs before with
+  | some us, some rb => s!"r=ok spec={showReqs (substitute rb us)}"
+  | _, _ => "bad-op"
 end PomDrv
 
 namespace TokDrv
@@ -194,6 +203,7 @@ def handle (line : String) : String :=
   match line.splitOn " " with
   | ["npm", a, b, c, u, before] => NpmDrv.handle a b c u before
   | ["pp", a, b] => PomDrv.handlePP a b
+  | ["pch", _layout, us, before] => PomDrv.handlePch us before
   | ["ws", _kind, vals, toks, _src] => TokDrv.handleWs vals toks
   | ["pom", pv, ds, ps, us, rb] => PomDrv.handlePom pv ds ps us rb
   | ["pomc", pv, ds, ps, us, rb] => PomDrv.handlePom pv ds ps us rb   -- comment inside the first <version> (layout only)
